@@ -103,6 +103,17 @@ package priority
 //@   effect gReqP := in.priority
 //@ event send dsc.inputRmvs (p)
 //@   effect gReqP := p
+// C16 / C07: Stop() and GracefulStop() ask the breakers the goroutine watches and return when it has completed them.
+//@ func (*Discipline).Stop
+//@   blocking
+//@   requires [*] dsc != nil
+//@   modifies gBreakOn, gClock
+//@   ensures [C16] stop-is-requested-on-the-breaker-the-goroutine-watches: gBreakOn == dsc.breaker
+//@ func (*Discipline).GracefulStop
+//@   blocking
+//@   requires [*] dsc != nil
+//@   modifies gBreakOn, gClock
+//@   ensures [C07 C16] graceful-stop-is-requested-on-the-breaker-the-goroutine-watches: gBreakOn == dsc.graceful
 //@ func (*Discipline).Err
 //@   requires [*] dsc != nil
 //@   ensures [* C07 C15] the-channel-the-discipline-reports-on: result == dsc.err
@@ -760,12 +771,6 @@ package priority
 //@ event call breaker.(*Breaker).Complete (b) in (*Simple).main
 //@   requires [C02 C07 C16] no-handle-call-is-running-when-stop-returns: gSWaited
 
-//@ func (*Discipline).Stop
-//@   blocking
-//@   ensures true
-//@ func (*Discipline).GracefulStop
-//@   blocking
-//@   ensures true
 
 //@ event recv done ()
 
@@ -782,9 +787,20 @@ package priority
 //@   ensures [C01] inner-capacity-is-the-number-of-handlers: result1 == nil ==> (result0.priority != nil && result0.priority.opts.HandlersQuantity == result0.opts.HandlersQuantity && result0.opts.HandlersQuantity == opts.HandlersQuantity)
 //@   ensures [C02 C07] handlers-use-the-inner-discipline-channels: result1 == nil ==> (result0.priority.opts.Output == result0.output && result0.priority.opts.Feedback == result0.feedback)
 
+//@ func (*Simple).Stop
+//@   requires [*] smpl != nil && smpl.breaker != nil
+//@   modifies gBreakOn, gClock
+//@   ensures [C16] stop-is-requested-on-the-breaker-the-goroutine-watches: gBreakOn == smpl.breaker
+//@ func (*Simple).GracefulStop
+//@   requires [*] smpl != nil && smpl.graceful != nil
+//@   modifies gBreakOn, gClock
+//@   ensures [C07 C16] graceful-stop-is-requested-on-the-breaker-the-goroutine-watches: gBreakOn == smpl.graceful
+//@ func (*Simple).Err
+//@   requires [*] smpl != nil
+//@   ensures [* C07 C16] the-channel-the-discipline-reports-on: result == smpl.err
 //@ func (*Simple).gracefulStop
 //@   requires [*] smpl != nil && smpl.priority != nil
-//@   modifies gStop, gClock
+//@   modifies gStop, gClock, gBreakOn
 
 //@ func (*Simple).handler
 //@   requires [*] smpl != nil && smpl.opts.Handle != nil
@@ -797,7 +813,7 @@ package priority
 //@   requires [*] smpl != nil && smpl.opts.Handle != nil && smpl.priority != nil && smpl.wg != nil && smpl.breaker != nil && smpl.graceful != nil
 //@   requires [C01] gSSpawned == 0
 //@   requires [C02 C07 C16] !gSWaited && !gSCancelled && !gSInnerStop
-//@   modifies gStop, gGraceful, gClock, gSSpawned, gSInnerStop, gSCancelled, gSWaited
+//@   modifies gStop, gGraceful, gClock, gSSpawned, gSInnerStop, gSCancelled, gSWaited, gBreakOn
 //@   ensures [C01] exactly-handlers-quantity-handlers: gSSpawned == smpl.opts.HandlersQuantity
 //@   loop 0
 //@     invariant [C01] gSSpawned == $i
